@@ -12,7 +12,28 @@ import (
 	"strings"
 	"testing"
 	"time"
+	"unsafe"
 )
+
+// verifVolatile returns a string whose bytes live in a caller-owned buffer, the way
+// fiber's c.Get() header values alias the connection's request buffer (Immutable=false).
+// The harness scribbles over the buffer after each delivery: the model has value
+// semantics, so the cache must have copied what it keeps.
+func verifVolatile(s string) (string, []byte) {
+	if len(s) == 0 {
+		return "", nil
+	}
+	b := []byte(s)
+	return unsafe.String(&b[0], len(b)), b
+}
+
+func verifScribble(bs ...[]byte) {
+	for _, b := range bs {
+		for i := range b {
+			b[i] = 'Z'
+		}
+	}
+}
 
 var verifClockNS int64
 
@@ -52,9 +73,13 @@ func TestVerifNonce(t *testing.T) {
 		verifClockNS = c.T0
 		nc := NewNonceCache(time.Duration(c.TTL))
 		tol := time.Duration(c.Tol)
-		for _, ev := range c.Events {
+		for _, ev0 := range c.Events {
+			ev := ev0
 			verifClockNS = ev.Now
 			ok := false
+			var sb, nb []byte
+			ev.Sender, sb = verifVolatile(ev0.Sender)
+			ev.Nonce, nb = verifVolatile(ev0.Nonce)
 			switch c.Kind {
 			case "forward":
 				payload := []byte("payload-" + ev.Nonce)
@@ -96,6 +121,7 @@ func TestVerifNonce(t *testing.T) {
 			default:
 				t.Fatalf("unknown kind %q", c.Kind)
 			}
+			verifScribble(sb, nb)
 			c.Obs = append(c.Obs, ok)
 		}
 	}
